@@ -1217,7 +1217,7 @@ def main():
   run.put("evaluations", run.cov.get("traces_validated_against_impl", 0))
   run.put("distinct_nontrivial", nontrivial)
   run.put("rule", "one case = one _LineSet operation sequence / one rendered source with directives "
-          "and every synthetic error query / one (program, reported error, directive placement); "
+          "and every synthetic error query and raised error / one (program, reported error, directive placement); "
           "non-trivial = the sequence pops a transition or raises / at least one query is "
           "suppressed / the error list changed; distinct by operation sequence resp. source text")
   run.assumptions += [
@@ -1226,6 +1226,9 @@ def main():
       "ring 3 programs avoid back-slash continuations and multi-line strings (a comment cannot be appended to such lines)",
       "two errors with the same class on the same line are silenced together by one directive: the compared identity of an error is (class, line, message, traceback)",
       "error tracebacks are compared with their line numbers shifted like the error lines when stand-alone comment lines are inserted",
+      "ring 2 raises errors through the real VmErrorLog.error with a one-frame stack whose opcode object is a stand-in carrying line / code.filename / class name (CALL or RETURN_VALUE); the filter installed is a pass-through wrapper around the real Director.filter_error that only remembers the error object",
+      "ring 3 learns the line of the opcode that detected an error from a pass-through wrapper around errors.Error.set_line installed in the harness' worker processes (it records the line before the first move); it is used to choose the 'opline' placements, for vacuity counts and for the ':relocated-error' suffix of keys, never in a verdict",
+      "the error-class tables of directors.py are pinned in specs/DirectivesOps.tla (PinnedFuncCallErrs, PinnedAdjustErrs); verdicts and the attribution to known findings use the pinned tables; the alphabet of ring 2 'alphabet' (every class name) is read from errors._ERROR_NAMES of the code under test, classes unknown to the pinned tables count as plain",
   ]
   return run.finish()
 
